@@ -534,8 +534,9 @@ def run(ck):
         "np.argsort inside the NDS pre-filter returns a permutation (observed, passed to the model)",
         "IEEE arithmetic is exact on the lattice/dyadic inputs (products < 2^53); non-dyadic floats compared with relative tolerance 1e-9",
     ]
-    ck.trusted_extra = ["the >=3-objective dimension-sweep (levelN: ignore flags, cached area/volume, shared bounds) is an executable "
-                        "model compared with the implementation and with the proved specification on every generated case, not proved equal to it"]
+    ck.trusted_extra = ["the nested dimension-sweep for >= 4 objectives (levelN calling itself: ignore flags, cached area/volume, shared bounds) is an "
+                        "executable model compared with the implementation and with the proved specification on every generated case, not proved "
+                        "equal to it (1, 2 and 3 objectives are proved end to end)"]
     R = _Runner(ck)
     pf = R.pf
     real_np = pf.np
